@@ -13,6 +13,13 @@
 //!   arabic ctx <cp>* / <cp>*          -> stored pre context / stored post context (array order)
 //!   arabic join <cp:gc>* / <cp:gc>* / <cp:gc>*       (pre / text / post, logical order)
 //!                                     -> actions of the text items  | bad-gc when a gc is not the crate's
+//!   arabic joinraw <prelen> <postlen> <cp:gc>* / <cp:gc>* / <cp:gc>*
+//!                                     raw pre-context SLOTS (array order, nearest first; missing slots NUL) / text / raw
+//!                                     post-context slots, with the context LENGTHS given separately: what is behind
+//!                                     the length is what earlier context calls left there   -> actions of the text items
+//!   arabic ctxseq <call>*             call = p:<cp,..> set_pre_context | q:<cp,..> set_post_context | a:<cp,..> add()
+//!                                     of each character (text may be empty), all on ONE UnicodeBuffer without clear()
+//!                                     -> <prelen> <postlen> / <raw pre slots> / <raw post slots>   (all slots)
 //!   arabic masks <mong 0|1> m0..m7 / <cp:gc>* / <cp:gc:mask>* / <cp:gc>*   -> action:mask per item
 //!   arabic mong <cp:action>*          -> actions after the Mongolian FVS copy
 //!   arabic cls <8 cps, comma separated: representatives of U,L,R,D,C,T,A(laph),S(=Dalath/Rish)> <pre> <text> <post>
@@ -185,6 +192,48 @@ pub fn handle(toks: &[&str], _st: &mut State) -> Option<String> {
                 }
                 _ => Some("bad-gc".into()),
             }
+        }
+        "joinraw" => {
+            let prelen: usize = toks.get(2)?.parse().ok()?;
+            let postlen: usize = toks.get(3)?.parse().ok()?;
+            let (pre, text, post) = split3(&toks[4..])?;
+            let (pre, text, post) = (chars_gc(pre)?, chars_gc(text)?, chars_gc(post)?);
+            match (pre, text, post) {
+                (Ok(pre), Ok(text), Ok(post)) => Some(
+                    format!("ok {}", join_u8(&hk::joining_raw(&pre, prelen, &text, &post, postlen)))
+                        .trim_end()
+                        .to_string(),
+                ),
+                _ => Some("bad-gc".into()),
+            }
+        }
+        "ctxseq" => {
+            let mut calls = vec![];
+            for t in &toks[2..] {
+                let (k, cps) = t.split_once(':')?;
+                let side = match k {
+                    "p" => 0u8,
+                    "q" => 1,
+                    "a" => 2,
+                    _ => return None,
+                };
+                let text: Option<String> = if cps.is_empty() {
+                    Some(String::new())
+                } else {
+                    cps.split(',')
+                        .map(|x| x.parse::<u32>().ok().and_then(char::from_u32))
+                        .collect()
+                };
+                calls.push((side, text?));
+            }
+            let (arr, len) = hk::context_after(&calls);
+            let g = |v: &Vec<char>| {
+                v.iter()
+                    .map(|c| (*c as u32).to_string())
+                    .collect::<Vec<_>>()
+                    .join(" ")
+            };
+            Some(format!("{} {} / {} / {}", len[0], len[1], g(&arr[0]), g(&arr[1])))
         }
         "masks" => {
             let mong = *toks.get(2)? == "1";
